@@ -306,6 +306,31 @@ static Exclusion Exclusion_make(float x_, float xm_, float smi, float smxi, floa
    'subs':[[r'\bcost\(', 'Exclusion_cost(self, ', 1], [r'\btest_position\(', 'Exclusion_test_position(self, ', 1]],
    'refs':['best_cost','best_pos'], 'self':['open']}@*/
 
+/* ------------------------------------------------------------------ libc models used by the extracted Vector code
+ * CBMC 6.11's built-in memmove model (array_copy/array_replace through a variable-length char buffer) loses all but the
+ * first element when source and destination are interior pointers of an array of structs, and its realloc/malloc models
+ * with a symbolic size make the back end run out of memory.  The extracted List.h code therefore calls these
+ * element-wise models (same semantics, restricted to what Vector<Exclusion> does: whole elements, one block of 8). */
+static void *memmove_elems(Exclusion *dest, const Exclusion *src, size_t bytes)
+{
+    const size_t n = bytes / sizeof(Exclusion);
+    __CPROVER_assert(bytes % sizeof(Exclusion) == 0 && n <= VMAX, "memmove model: whole elements, at most VMAX");
+    Exclusion tmp[VMAX];
+    for (size_t k = 0; k < VMAX; ++k) if (k < n) tmp[k] = src[k];
+    for (size_t k = 0; k < VMAX; ++k) if (k < n) dest[k] = tmp[k];
+    return dest;
+}
+static void *realloc_elems(Exclusion *ptr, size_t bytes)
+{
+    __CPROVER_assert(bytes == 8 * sizeof(Exclusion), "realloc model: bounded universe, growth to one block of 8 elements");
+    Exclusion *q = malloc(8 * sizeof(Exclusion)); __CPROVER_assume(q != NULL);
+    if (ptr != NULL) {
+        const size_t old = OBJSZ(ptr) / sizeof(Exclusion);
+        for (size_t k = 0; k < 8; ++k) if (k < old) q[k] = ptr[k];
+        free(ptr);
+    }
+    return q;
+}
 /* ------------------------------------------------------------------ extracted code: Vector<Exclusion> (src/inc/List.h, T = Exclusion) */
 /*@extract {'file':'src/inc/Main.h', 'sig': r'bool checked_mul\(const size_t a, const size_t b, size_t & t\)\s*(?=\{\s*return __builtin_mul_overflow)',
    'emit':'static bool checked_mul(const size_t a, const size_t b, size_t *t)', 'refs':['t']}@*/
@@ -321,20 +346,20 @@ static Exclusion Exclusion_make(float x_, float xm_, float smi, float smxi, floa
 void Vector_reserve(Exclusions *self, size_t n);
 /*@extract {'file':'src/inc/List.h', 'sig': r'void Vector<T>::reserve\(size_t n\)', 'emit':'void Vector_reserve(Exclusions *self, size_t n)', 'casts': True,
    'subs':[[r'\bcapacity\(\)', 'Vector_capacity(self)', 1], [r'\bsize\(\)', 'Vector_size(self)', 1], [r'checked_mul\(n,sizeof\(T\), requested\)', 'checked_mul(n, sizeof(Exclusion), &requested)', 1],
-           [r'std::abort\(\)', 'abort()', 0], [r'\bT\b', 'Exclusion', 0]],
+           [r'std::abort\(\)', 'abort()', 0], [r'\bT\b', 'Exclusion', 0], [r'\brealloc\(', 'realloc_elems(', 0]],
    'self':['m_first','m_last','m_end']}@*/
 Exclusion *Vector_insert_default(Exclusions *self, Exclusion *p, size_t n);
 /*@extract {'file':'src/inc/List.h', 'sig': r'typename Vector<T>::iterator Vector<T>::_insert_default\(iterator p, size_t n\)',
    'emit':'Exclusion *Vector_insert_default(Exclusions *self, Exclusion *p, size_t n)',
    'subs':[[r'\bbegin\(\)', 'Vector_begin(self)', 3], [r'\bend\(\)', 'Vector_end(self)', 3], [r'\bsize\(\)', 'Vector_size(self)', 1], [r'\breserve\(', 'Vector_reserve(self, ', 1],
-           [r'sizeof\(T\)', 'sizeof(Exclusion)', 1]],
+           [r'sizeof\(T\)', 'sizeof(Exclusion)', 1], [r'\bmemmove\(', 'memmove_elems(', 0]],
    'self':['m_last']}@*/
 /*@extract {'file':'src/inc/List.h', 'scope': r'class Vector\s*\{', 'sig': r'(?<!_)iterator\s+insert\(iterator p, const T & x\)', 'emit':'Exclusion *Vector_insert(Exclusions *self, Exclusion *p, const Exclusion x)',
    'subs':[[r'_insert_default\(', 'Vector_insert_default(self, ', 1], [r'new \(p\) T\(x\);', '*p = x;', 1]]}@*/
 Exclusion *Vector_erase_range(Exclusions *self, Exclusion *first, Exclusion *last);
 /*@extract {'file':'src/inc/List.h', 'sig': r'typename Vector<T>::iterator Vector<T>::erase\(iterator first, iterator last\)',
    'emit':'Exclusion *Vector_erase_range(Exclusions *self, Exclusion *first, Exclusion *last)',
-   'subs':[[r'e->~T\(\);', '{ /* trivial destructor */ }', 1], [r'\bend\(\)', 'Vector_end(self)', 1], [r'sizeof\(T\)', 'sizeof(Exclusion)', 1]],
+   'subs':[[r'e->~T\(\);', '{ /* trivial destructor */ }', 1], [r'\bend\(\)', 'Vector_end(self)', 1], [r'sizeof\(T\)', 'sizeof(Exclusion)', 1], [r'\bmemmove\(', 'memmove_elems(', 0]],
    'self':['m_last']}@*/
 /*@extract {'file':'src/inc/List.h', 'scope': r'class Vector\s*\{', 'sig': r'(?<!_)iterator\s+erase\(iterator p\)', 'emit':'Exclusion *Vector_erase(Exclusions *self, Exclusion *p)',
    'subs':[[r'\berase\(p, p\+1\)', 'Vector_erase_range(self, p, p+1)', 1]]}@*/
@@ -454,6 +479,7 @@ static Exclusion *alloc_elems(size_t cap)
                  : cap == 4 ? malloc(4 * sizeof(Exclusion)) : cap == 5 ? malloc(5 * sizeof(Exclusion)) : cap == 6 ? malloc(6 * sizeof(Exclusion))
                  : cap == 7 ? malloc(7 * sizeof(Exclusion)) : malloc(8 * sizeof(Exclusion));
     __CPROVER_assume(a != NULL);
+    for (size_t k = 0; k < 8; ++k) if (k < cap) a[k].open = nondet_bool();        /* FRAMEWORK item 12: bool fields from malloc */
     return a;
 }
 
